@@ -233,7 +233,9 @@ def run(ctx):
     optioned = [(64, (2, 4, 8), 'dw', None, {'disable_shared_quantizers': True}), (64, (2, 4, 8), 'dw', (40, 24, 0), {'disable_shared_quantizers': True}),
                 (32, (2, 4, 8), 'res', None, {'disable_shared_quantizers': True}), (64, (0, 2, 4, 8), 'res', None, {'disable_shared_quantizers': True}),
                 (64, (2, 4, 8), 'conv3', None, {'gumbel_softmax': True, 'mode': 'eval'}), (32, (2, 4, 8), 'conv3only', (20, 12, 0), {'gumbel_softmax': True, 'mode': 'eval'}),
-                (64, (2, 4, 8), 'conv3', None, {'mode': 'eval'}), (64, (2, 4, 8), 'res', None, {'disable_shared_quantizers': True, 'temperature': 5.0})]
+                (64, (2, 4, 8), 'conv3', None, {'mode': 'eval'}), (64, (2, 4, 8), 'res', None, {'disable_shared_quantizers': True, 'temperature': 5.0}),
+                (64, (2, 4, 8), 'conv3', None, {'alpha_grid': 0.5}), (32, (2, 4, 8), 'conv3only', None, {'alpha_grid': 1.0}), (64, (0, 2, 4, 8), 'conv3', None, {'alpha_grid': 0.5, 'mode': 'eval'}),
+                (64, (2, 4, 8), 'conv3', None, {'freeze': True}), (32, (2, 4, 8), 'conv3only', (20, 12, 0), {'freeze': True}), (64, (2, 4, 8), 'res', None, {'freeze': True, 'disable_shared_quantizers': True})]
     if not ctx.quick:
         for _ in range(24):
             o = {}
@@ -246,6 +248,10 @@ def run(ctx):
                 o['mode'] = 'eval'
             if ctx.rng.random() < 0.3:
                 o['temperature'] = ctx.rng.choice([0.5, 2.0, 5.0])
+            if ctx.rng.random() < 0.25:
+                o['alpha_grid'] = ctx.rng.choice([0.25, 0.5, 1.0])
+            if ctx.rng.random() < 0.25:
+                o['freeze'] = True
             optioned.append((ctx.rng.choice([32, 64]), ctx.rng.choice([(2, 4, 8), (0, 2, 4, 8), (2, 8)]), ctx.rng.choice(['dw', 'res', 'conv3', 'conv3pair']), None, o))
     configs += optioned
     for idx, (C, precs, kind, counts, opts) in enumerate(configs):
@@ -253,9 +259,16 @@ def run(ctx):
         rec = {'C': C, 'precisions': list(precs), 'kind': kind, 'seed': seed, 'start_counts': counts, 'options': opts, 'layers': {}}
         ascending = list(precs) == sorted(precs)
         try:
-            m = build_mps(torch, C, precs, seed, kind, counts, **{k: v for k, v in opts.items() if k != 'mode'})
+            m = build_mps(torch, C, precs, seed, kind, counts, **{k: v for k, v in opts.items() if k not in ('mode', 'alpha_grid', 'freeze')})
+            if opts.get('alpha_grid'):
+                # coefficients on a coarse grid (hand-set values, a rounded checkpoint): exact ties, also at the maximum of a channel
+                with torch.no_grad():
+                    for _n, _p in m.named_nas_parameters():
+                        _p.copy_(torch.round(_p / opts['alpha_grid']) * opts['alpha_grid'])
             if opts.get('mode') == 'eval':
                 m.eval()
+            if opts.get('freeze'):
+                m.train_net_only()          # the architectural coefficients are frozen (fine-tuning phase) when the refinement runs
             m.update_softmax_options(hard=True)
             m(m._input_example)
             layers = per_channel_layers(m)
